@@ -59,6 +59,8 @@ func (tb *TB) Prelude() {
 	tb.AddAxiom("str-cat-sub-left", tb.Quant(true, []*Term{a, b}, tb.Eq(ssub(cab, z, slen(a)), a), cab))
 	tb.AddAxiom("str-cat-sub-right", tb.Quant(true, []*Term{a, b}, tb.Eq(ssub(cab, slen(a), slen(cab)), b), cab))
 	tb.AddAxiom("str-cat-empty", tb.Quant(true, []*Term{a}, tb.And(tb.Eq(scat(a, tb.Const("s_empty", "Str")), a), tb.Eq(scat(tb.Const("s_empty", "Str"), a), a)), scat(a, tb.Const("s_empty", "Str")), scat(tb.Const("s_empty", "Str"), a)))
+	cc := tb.BoundVar("c", "Str")
+	tb.AddAxiom("str-cat-assoc", tb.Quant(true, []*Term{a, b, cc}, tb.Eq(scat(scat(a, b), cc), scat(a, scat(b, cc))), scat(scat(a, b), cc)))
 	// Go division/modulo (truncated)
 	x := tb.BoundVar("x", "Int")
 	y := tb.BoundVar("y", "Int")
